@@ -148,7 +148,7 @@ fn history_case(c: &J, seed: u64, stat: &mut [usize; 4]) -> Result<usize, String
     let rule = c["rule"].as_str().unwrap();
     let hist = c["hist"].as_array().unwrap();
     let dim = hist[0]["g"].as_array().unwrap().len();
-    let mut math = CpuMath::new(QuadLogp { p: vec![vec![0.0; dim]; dim], m: vec![0.0; dim] });
+    let mut math = CpuMath::new(QuadLogp { p: vec![vec![0.0; dim]; dim], m: vec![0.0; dim], quartic: 0.0 });
     let mut rng = Lcg(seed ^ 0x9e3779b97f4a7c15);
     let mut chacha = <nuts_rs::rand::rngs::ChaCha8Rng as nuts_rs::rand::SeedableRng>::seed_from_u64(1);
     let mut checks = 0usize;
@@ -303,7 +303,7 @@ fn gauss_diag_case(c: &J) -> Result<usize, String> {
     let z: Vec<Vec<f64>> = c["z"].as_array().unwrap().iter().map(|r| r.as_array().unwrap().iter().map(|v| v.as_f64().unwrap()).collect()).collect();
     let mut checks = 0;
     for grad_based in [true, false] {
-        let mut math = CpuMath::new(QuadLogp { p: vec![vec![0.0; d]; d], m: vec![0.0; d] });
+        let mut math = CpuMath::new(QuadLogp { p: vec![vec![0.0; d]; d], m: vec![0.0; d], quartic: 0.0 });
         let mut diag = verif::diag_mass_matrix(&mut math, &vec![1.0; d], &vec![0.0; d]);
         let settings = DiagAdaptExpSettings { store_mass_matrix: true, use_grad_based_estimate: grad_based };
         let mut s = <DiagAdaptStrategy<M> as MassMatrixAdaptStrategy<M>>::new(&mut math, settings, 100, 0);
@@ -389,7 +389,7 @@ fn gauss_lowrank_case(c: &J, tol: f64, worst: &mut f64) -> Result<usize, String>
     let core_inv = invert(&core);
     let prec: Vec<Vec<f64>> = (0..d).map(|i| (0..d).map(|j| core_inv[i][j] / sig[i] / sig[j]).collect()).collect();
     let _ = cov;
-    let logp = QuadLogp { p: prec.clone(), m: mu.clone() };
+    let logp = QuadLogp { p: prec.clone(), m: mu.clone(), quartic: 0.0 };
     let mut math = CpuMath::new(logp);
     let mut lowr = verif::low_rank_mass_matrix(&mut math);
     let mut s = LowRankMassMatrixStrategy::new(d, LowRankSettings { store_mass_matrix: true, gamma: std::env::var("C08_GAMMA").ok().and_then(|s| s.parse().ok()).unwrap_or(1e-5), eigval_cutoff: if equi { LowRankSettings::default().eigval_cutoff } else { 1.00001 } });
